@@ -369,6 +369,12 @@ def classify(props, ob, info):
         elif "verif_h_" in (fn + name) and "assertion failed" not in desc:
             # an overflow / bounds failure INSIDE harness or reference-model code is a harness defect, not a finding
             out["harness_bug"].append(p)
+        elif ".NaN." in name or name.startswith("feraiseexcept."):
+            # cut X14 (DESIGN §4): CBMC's --nan-check ("NaN on +") and its libm model's feraiseexcept() assertion flag float
+            # operations that produce NaN / raise an IEEE exception flag. Rust float arithmetic never traps, so neither is a
+            # panic of the code under test; tolerated and counted.
+            out["n_success"] += 1
+            out["float_model"] = out.get("float_model", 0) + 1
         else:
             out["fail"].append(p)
     return out
